@@ -38,6 +38,20 @@ class Observer:
         self.src = src
         self.seen.add(str(p0))
         self._check(p0, "orig", [], self.opts.get("n_inputs0", 6))
+        script = ccpipe.EXTRA_SCHED.get(self.rec["name"].split("~")[0])
+        if script:
+            import stream
+
+            try:
+                p = p0
+                for att in script:
+                    p = stream.apply_attempt(p, att, env)
+            except stream.Rejected as r:
+                c = self.rec["counts"]
+                c["scripted-schedule-rejected"] = c.get("scripted-schedule-rejected", 0) + 1
+            else:
+                self.seen.add(str(p))
+                self._check(p, "scripted:" + script[-1]["op"], list(script), self.opts.get("n_inputs0", 6))
 
     def _check(self, p, tag, hist, n_inputs):
         c = self.rec["counts"]
